@@ -191,6 +191,13 @@ func (c *Ctx) Violate(sig, caseID string, input interface{}, expected, observed 
 	c.hist["VIOLATION"]++
 }
 
+// NumViolations: number of direct-oracle violations recorded so far (streams may stop exploring once a defect is established).
+func (c *Ctx) NumViolations() int {
+	c.mu.Lock()
+	defer c.mu.Unlock()
+	return len(c.violations)
+}
+
 func (c *Ctx) Failed() bool { return len(c.mismatches) > 0 || len(c.violations) > 0 }
 
 // ---- Lean model process -------------------------------------------------------------------------
